@@ -100,6 +100,7 @@ class _CommentClaimer(Generic[_M]):
                 if token.claimed:
                     break
                 if id(token) in self._comments_to_claim:
+                    self._comments_to_claim.discard(id(token))
                     yield token
             else:
                 break
@@ -121,10 +122,9 @@ class _CommentClaimer(Generic[_M]):
             raise ValueError(f'{len(self._comments_to_claim)} comment(s) not found.')
 
         if comments_before:
-            first = self._repeated.token_store.get_prev(self._repeated.first_token)
-            assert first is not None
+            # move the placeholders (including our own) in front of the claimed comments
             _shift_ignored(
-                self._repeated.token_store, first, comments_before[0], backwards=True)
+                self._repeated.token_store, comments_before[0], self._repeated.first_token, backwards=True)
 
         if comments_after:
             first = self._repeated.token_store.get_next(self._repeated.last_token)
@@ -181,10 +181,11 @@ class RepeatedNodeWithInterleavingCommentsWrapper(properties.RepeatedNodeWrapper
                 continue
             if comment_set is not None:
                 comment_set.discard(id(item))
-            item.claimed = False
             unclaimed_comments.append(item)
         if comment_set:
             raise ValueError(f'{len(comment_set)} comment(s) not found.')
+        for comment in unclaimed_comments:
+            comment.claimed = False
         self._repeated.items[:] = items
         self._notify()
         return tuple(unclaimed_comments)
